@@ -428,7 +428,7 @@ func (h *vpRun) barrier() {
 	}()
 	select {
 	case <-done:
-	case <-time.After(10 * time.Second):
+	case <-time.After(60 * time.Second):
 		h.problem = "path goroutine does not respond"
 	}
 }
@@ -482,7 +482,7 @@ func vpWithTimeout(f func()) bool {
 	select {
 	case <-done:
 		return true
-	case <-time.After(10 * time.Second):
+	case <-time.After(60 * time.Second):
 		return false
 	}
 }
